@@ -12,7 +12,9 @@ Tie (T)    : translators/c04_delete.py regenerates coq/Gen_C04.v from the curren
 Tie (C)    : the extracted model (ocaml/eng_c04.ml) and the real library (harness/c04_mod.c, ASan/UBSan build of the
              working tree) run the same modify-mode histories -- about 145 (parent label, child label) sibling groups on
              ~42 position labels, every tree level, ADF and HDF5, compress-on-close off / on / always; every w / d / v /
-             o line is compared.  Single children (CGNS_DELETE_CHILD arms) are exercised on the implementation only.
+             o line is compared.  Single children (CGNS_DELETE_CHILD arms) are exercised on the implementation only; those whose
+             name the caller chooses (Mirror.user_named_singles over the regenerated child_names) get non-default names, are
+             deleted by that name and created again under another one.
 Attributes : every entity whose writer re-creates it in a re-used slot (single children, units, multi-sibling positions; 118
              targets) is written, given every attribute the API accepts, overwritten, and compared -- session and fresh open --
              with the same entity created for the first time in a second file (harness `attach` / `full`); statically,
@@ -147,6 +149,28 @@ MK = [
     ("periodic", None, "GridConnectivity_t", [("GridConnectivityProperty", "GridConnectivityProperty_t"), ("Periodic", "Periodic_t")]),
     ("average", None, "GridConnectivity_t", [("GridConnectivityProperty", "GridConnectivityProperty_t"), ("AverageInterface", "AverageInterface_t")]),
 ]
+# single children whose NAME the caller chooses (cg_biter_write / cg_ziter_write / cg_piter_write take it): filled by run() from
+# the regenerated tables (Mirror.user_named_singles over Gen_C04.child_names); the histories give them non-default names
+USER_NAMED = set()
+_inst = {"n": 0}
+
+
+def inst(m, name=None):
+    """an MK entry as (what, arg, chain) -- with a fresh non-default name when the kind is caller-named"""
+    what, arg, _, chain = m
+    if len(chain) == 1 and chain[0][1] in USER_NAMED:
+        if name is None:
+            _inst["n"] += 1
+            name = "%s.%d" % (chain[0][0][:20], _inst["n"])
+        return what, name, [(name, chain[0][1])]
+    return what, arg, chain
+
+
+def mk_op(path, m, name=None):
+    what, arg, chain = inst(m, name)
+    return ("mk", path, what, arg, chain)
+
+
 # labels of single children (CGNS_DELETE_CHILD arms): not modelled by Mirror.v, exercised on the implementation only
 CONTAINER_LABELS = {lab for m in MK for _, lab in m[3]} | {"ZoneBC_t"}
 TAG = {"CGNSBase_t": "B", "Zone_t": "Z", "ParticleZone_t": "PZ", "Family_t": "Fam", I: "Int", D: "De", U: "Ud", A: "Ar", F: "Afn",
@@ -243,6 +267,10 @@ class Ref:
         for i, (name, label) in enumerate(chain):
             n = self.nodes[cur]
             last = i == len(chain) - 1
+            if last:
+                for old in [o for o, (lab, _) in n["names"].items() if lab == label and o != name]:
+                    n["names"].pop(old); n["file"].remove(old); n["slots"][label].remove(old)
+                    self.drop(join(cur, old))
             if name in n["names"] and last:
                 n["file"].remove(name); n["file"].append(name)
                 self.drop(join(cur, name))
@@ -358,12 +386,15 @@ def expand(ops, backend, fpath, compress, full_every=None):
             near = [(path, pl, l) for l, _, _ in kinds_at(path, pl)]
         elif op[0] == "mk":
             _, path, what, arg, chain = op
+            gone = []
+            if path in ref.nodes and len(chain) == 1:
+                gone = [join(path, o) for o, (lab, _) in ref.nodes[path]["names"].items() if lab == chain[0][1] and o != chain[0][0]]
             st = ref.mk(path, chain)
             lines.append("mk %s %s%s" % (path, what, " " + arg if arg else ""))
             inner = path
             for name, _ in chain:
                 inner = join(inner, name)
-            exp.append(("c", st, k, inner))          # the (re-)created container: the engine forgets what was below it
+            exp.append(("c", st, k, [inner] + gone))          # the (re-)created container: the engine forgets what was below it
             near = []
         elif op[0] == "reopen":
             views(ref.groups(), ("pre", k))
@@ -471,7 +502,7 @@ def lines_of_op(op):
     if op[0] == "d":
         return "d %s %s %s" % op[1:]
     if op[0] == "mk":
-        return "mk %s %s" % (op[1], op[2])
+        return "mk %s %s%s" % (op[1], op[2], " " + op[3] if op[3] else "")
     return " ".join(str(x) for x in op)
 
 
@@ -551,13 +582,14 @@ class Gen:
         self.rng.shuffle(pos)
         path, pl = pos[0]
         if self.rng.random() < 0.25:
+            has_biter = any(lab == "BaseIterativeData_t" for lab, _ in self.ref.nodes["/B"]["names"].values())
             cands = [m for m in MK if m[2] == pl and (path, m[0], m[1]) not in self.mk_done
-                     and not (m[0] in ("ziter", "piter") and "BaseIterativeData" not in self.ref.nodes["/B"]["names"])
+                     and not (m[0] in ("ziter", "piter") and not has_biter)
                      and not (m[0] == "piter" and AVOID["pit"])]
             if cands:
-                what, arg, _, chain = self.rng.choice(cands)
-                self.mk_done.add((path, what, arg))
-                self.emit(("mk", path, what, arg, chain))
+                m = self.rng.choice(cands)
+                self.mk_done.add((path, m[0], m[1]))
+                self.emit(mk_op(path, m))
                 return
         if pl == "Zone_t" and join(path, "ZoneBC") not in self.ref.nodes and self.rng.random() < 0.3:
             self.emit(("w", join(path, "ZoneBC"), "ZoneBC_t", "BC_t", self.fresh_name("BC_t"), self.payload(None)))
@@ -650,12 +682,11 @@ def focused_history(rng, target, allow_nonlast=True):
     path = "/B"
     for step in chain:
         if step[0] == "mkbase":
-            m = step[1]
-            g.emit(("mk", "/B", m[0], m[1], m[3]))
+            g.emit(mk_op("/B", step[1]))
         elif step[0] == "mk":
-            m = step[1]
-            g.emit(("mk", path, m[0], m[1], m[3]))
-            for name, _ in (m[3][:1] if len(step) == 3 else m[3]):
+            op = mk_op(path, step[1])
+            g.emit(op)
+            for name, _ in (op[4][:1] if len(step) == 3 else op[4]):
                 path = join(path, name)
         elif step[0] == "zonebc":
             g.emit(("w", join(path, "ZoneBC"), "ZoneBC_t", "BC_t", "Bc0", 3))
@@ -759,12 +790,11 @@ def route_ops(pl):
     path = "/B"
     for step in chain:
         if step[0] == "mkbase":
-            m = step[1]
-            g.emit(("mk", "/B", m[0], m[1], m[3]))
+            g.emit(mk_op("/B", step[1]))
         elif step[0] == "mk":
-            m = step[1]
-            g.emit(("mk", path, m[0], m[1], m[3]))
-            for name, _ in (m[3][:1] if len(step) == 3 else m[3]):
+            op = mk_op(path, step[1])
+            g.emit(op)
+            for name, _ in (op[4][:1] if len(step) == 3 else op[4]):
                 path = join(path, name)
         elif step[0] == "zonebc":
             g.emit(("w", join(path, "ZoneBC"), "ZoneBC_t", "BC_t", "Bc0", 3))
@@ -787,12 +817,12 @@ PIT = "ParticleIterativeData_t"
 
 def probe_noblock(pl):
     if pl == PIT:
-        return [("mk", "/B", "biter", None, [("BaseIterativeData", "BaseIterativeData_t")]),
+        return [mk_op("/B", [m for m in MK if m[0] == "biter"][0]),
                 ("w", "/B", "CGNSBase_t", "ParticleZone_t", "PZ0", 4),
                 ("mk", "/B/PZ0", "piter", None, [("ParticleIterativeData", PIT)]),
                 ("w", "/B/PZ0/ParticleIterativeData", PIT, D, "De1", 1),
                 ("w", "/B/PZ0/ParticleIterativeData", PIT, D, "De2", 2),
-                ("d", "/B/PZ0/ParticleIterativeData", PIT, "De1")]
+                ("d", "/B/PZ0/ParticleIterativeData", PIT, "De1")]          # (default names: the corpus witness of 627245e)
     r = route_ops(pl)
     if r is None or not kinds_at(r[1], pl):
         return None
@@ -841,7 +871,8 @@ def model_lines(lines, out, exp=None):
             ml.append("drop " + join(t[1], t[3]))
             continue
         if t[0] == "mk" and exp is not None and len(exp[i]) > 3:
-            ml.append("drop " + exp[i][3])
+            for g in exp[i][3]:
+                ml.append("drop " + g)
             continue
         if t[0] in ("w", "u", "d", "v", "reopen"):
             ml.append(l); il.append(o)
@@ -880,11 +911,11 @@ def attr_targets():
             continue
         ops, path = r
         if m[0] in ("ziter", "piter") and not any(o[0] == "mk" and o[2] == "biter" for o in ops):
-            ops = [("mk", "/B", "biter", None, [("BaseIterativeData", "BaseIterativeData_t")])] + ops
+            ops = [mk_op("/B", [m for m in MK if m[0] == "biter"][0])] + ops
+        w = mk_op(path, m)
         inner = path
-        for name, _ in m[3]:
+        for name, _ in w[4]:
             inner = join(inner, name)
-        w = ("mk", path, m[0], m[1], m[3])
         out.append(("single %s under %s" % (m[3][-1][1], m[2]), m[3][-1][1], ops, [w], [w], inner))
     for pl in ("CGNSBase_t", "Zone_t", "FlowSolution_t", "UserDefinedData_t"):
         r = route_ops(pl)
@@ -1047,6 +1078,10 @@ def run(ck):
             tables["bad_nrow"].append((t[1], t[2]))
         elif t[0] == "bad_rrow":
             tables.setdefault("bad_rrow", []).append((t[1], t[2]))
+        elif t[0] in ("bad_single", "user_single", "shadowed_single"):
+            tables.setdefault(t[0], []).append(tuple(t[1:4]))
+        elif t[0] == "unjustified_name":
+            tables.setdefault(t[0], []).append(tuple(t[1:3]))
         elif t[0] in ("bad_dblock", "bad_wrow"):
             tables[t[0]].append(t[1])
     ck.extra["tables"] = {"verdicts": tables["verdicts"], "shadowed": tables["shadowed"], "positions_without_block": tables["no_block"],
@@ -1054,6 +1089,14 @@ def run(ck):
                           "writers_not_storing_the_node_id": tables["bad_nrow"],
                           "writers_not_reinitialising_a_field": tables.get("bad_rrow", []), "bad_dblock": tables["bad_dblock"],
                           "bad_wrow": tables["bad_wrow"]}
+    # the single children whose name the caller chooses get non-default names in every history from here on
+    USER_NAMED.clear()
+    USER_NAMED.update(l for _, l, _ in tables.get("user_single", []))
+    _inst["n"] = 0
+    _ROUTES.clear()
+    mk_labels = {m[3][-1][1] for m in MK}
+    ck.extra["caller_named_single_children"] = {"from_tables": sorted(tables.get("user_single", [])),
+                                                "not_creatable_by_the_harness": sorted(l for l in USER_NAMED if l not in mk_labels)}
     # the catalogue must stay inside what the theorems cover: every group the harness drives is a sound kind of its parent
     outside = [(pl, k[0]) for pl in CAT for k in CAT[pl] if pl in tables["kinds"] and k[0] not in tables["kinds"][pl]]
     ck.extra["catalogue_groups_outside_sound_kinds"] = outside
@@ -1238,6 +1281,33 @@ def run(ck):
         static_broken.append({"broken_obligation": "the dispatcher does not shift the array of this kind for an unreserved name",
                               "parent": pl, "label": label, "table": "Mirror.unsound_kinds"})
     ck.extra["table_findings_replayed"] = replayed
+    for t3 in tables.get("bad_single", []):
+        static_broken.append({"broken_obligation": "the arm that frees this single child does not select it the way its writers name it "
+                                                   "(by label for a caller-named kind, by its literal name for a fixed-name kind)",
+                              "parent": t3[0], "label": t3[1], "pointer": t3[2], "table": "Mirror.bad_singles"})
+    for t2 in tables.get("unjustified_name", []):
+        static_broken.append({"broken_obligation": "an arm compares node_name with a literal that is neither the fixed name of a child kind "
+                                                   "of this parent nor a name the reader identifies a child by", "parent": t2[0], "name": t2[1]})
+    # caller-named single children under a RESERVED name that an earlier arm tests: replay each on the library
+    for (pl, label, name) in tables.get("shadowed_single", []):
+        ms = [m for m in MK if m[2] == pl and m[3][-1][1] == label]
+        r = route_ops(pl)
+        if not ms or r is None:
+            static_broken.append({"broken_obligation": "shadowed single child the harness cannot build", "triple": [pl, label, name]})
+            continue
+        ops, path = r
+        if ms[0][0] in ("ziter", "piter") and not any(o[0] == "mk" and o[2] == "biter" for o in ops):
+            ops = [mk_op("/B", [m for m in MK if m[0] == "biter"][0])] + ops
+        ops = ops + [mk_op(path, ms[0], name), ("w", join(path, name), label, D, "Dek", 5), ("d", path, pl, name), mk_op(path, ms[0], name)]
+        div = False
+        for backend in ("adf", "hdf5"):
+            fails, lines, out, outcome = probe(ops, backend, "shadowed single child", {"triple": [pl, label, name]})
+            if fails:
+                div = True
+                finding("delete-arm-shadowed:%s/%s:%s" % (pl, label, name),
+                        {"ops": ser(ops), "history": [lines_of_op(o) for o in ops], "backend": backend, "failures": fails[:3],
+                         "table": "Mirror.shadowed_singles on the regenerated tables lists this triple"})
+        replayed.append({"triple": [pl, label, name], "single_child": True, "replayed": True, "diverges": div})
     for fn, fields in tables.get("bad_rrow", []):
         static_broken.append({"broken_obligation": "a writer that can be handed a re-used slot does not set these fields again",
                               "function": fn, "fields": fields, "table": "Gen_C04.reinit_rows / Mirror.bad_rrows"})
@@ -1325,16 +1395,31 @@ def run(ck):
             continue
         ops, path = r
         if m[0] in ("ziter", "piter") and not any(o[0] == "mk" and o[2] == "biter" for o in ops):
-            ops = [("mk", "/B", "biter", None, [("BaseIterativeData", "BaseIterativeData_t")])] + ops
-        ops = ops + [("mk", path, m[0], m[1], m[3])]
+            ops = [mk_op("/B", [m for m in MK if m[0] == "biter"][0])] + ops
+        first = mk_op(path, m)
+        ops = ops + [first]
         inner = path
-        for name, _ in m[3]:
+        for name, _ in first[4]:
             inner = join(inner, name)
         for lab, mode, bound in CAT.get(m[3][-1][1], [])[:3]:
             ops.append((mode, inner, m[3][-1][1], lab, TAG.get(lab, "N") + "k", 5 % (bound or 99)))
-        top = m[3][0][0]
+        top = first[4][0][0]
         if m[0] != "biter":                      # (deleting BaseIterativeData_t hides the ZoneIterativeData_t of every zone on read)
-            ops += [("d", path, m[2], top), ("mk", path, m[0], m[1], m[3])]
+            # delete it by the name it was given, create it again -- under ANOTHER name when the caller chooses the name --
+            # and put a child below the new one (a stale mirror entry makes that write fail or land elsewhere)
+            again = mk_op(path, m)
+            ops += [("d", path, m[2], top), again]
+            inner2 = path
+            for name, _ in again[4]:
+                inner2 = join(inner2, name)
+            for lab, mode, bound in CAT.get(m[3][-1][1], [])[:1]:
+                ops.append((mode, inner2, m[3][-1][1], lab, TAG.get(lab, "N") + "n", 6 % (bound or 99)))
+        elif first[4][0][1] in USER_NAMED:
+            # BaseIterativeData_t: replace it under another name instead (cg_biter_write overwrites the single child)
+            again = mk_op(path, m)
+            ops.append(again)
+            for lab, mode, bound in CAT.get(m[3][-1][1], [])[:1]:
+                ops.append((mode, join(path, again[4][0][0]), m[3][-1][1], lab, TAG.get(lab, "N") + "n", 6 % (bound or 99)))
         backend, compress = combos[mi % len(combos)]
         dist["focused"] += 1
         covered.setdefault("%s/%s" % (m[2], m[3][0][1]), set()).update({"create", "delete-single"} if m[0] != "biter" else {"create"})
